@@ -392,6 +392,9 @@ func opsCompare(c *Case, out any) []Finding {
 					if len(placeholders) > 0 {
 						fs = append(fs, Finding{Kind: "property", Detail: fmt.Sprintf("query %s returns unresolved placeholders %v", qd, placeholders), Signature: "ops:paramsFor:placeholder"})
 					}
+					if ar, _ := get(specA, "allResolve").(bool); ar && designated && !jsonEq(implRes, get(specA, "effective")) {
+						fs = append(fs, Finding{Kind: "property", Detail: fmt.Sprintf("query %s: effective parameters %s, but path-level parameters overridden by the operation's own (refs replaced by their targets) are %s", qd, canonStr(implRes), canonStr(get(specA, "effective"))), Signature: "ops:paramsFor:override"})
+					}
 					if !jsonEq(implRes, get(model, "ok", "res")) {
 						fs = append(fs, Finding{Kind: "correspondence", Detail: fmt.Sprintf("query %s: results differ: model %s impl %s", qd, canonStr(get(model, "ok", "res")), canonStr(implRes)), Signature: "ops:paramsFor:res"})
 					}
@@ -401,6 +404,20 @@ func opsCompare(c *Case, out any) []Finding {
 					}
 					if ph, _ := get(r, "placeholders").([]any); len(ph) > 0 {
 						fs = append(fs, Finding{Kind: "property", Detail: fmt.Sprintf("query %s returns unresolved placeholders %v", qd, ph), Signature: "ops:parametersFor:placeholder"})
+					}
+					if ar, _ := get(specA, "allResolve").(bool); ar && designated {
+						var want []any
+						if em, ok := get(specA, "effective").(map[string]any); ok {
+							for _, v := range em {
+								want = append(want, v)
+							}
+						}
+						if want == nil {
+							want = []any{}
+						}
+						if !jsonEq(sortArrays(get(r, "tags")), sortArrays(want)) {
+							fs = append(fs, Finding{Kind: "property", Detail: fmt.Sprintf("query %s: effective parameters %s, but the override rule gives %s", qd, canonStr(get(r, "tags")), canonStr(want)), Signature: "ops:parametersFor:override"})
+						}
 					}
 					if !jsonEq(sortArrays(get(r, "tags")), sortArrays(get(model, "ok", "tags"))) {
 						fs = append(fs, Finding{Kind: "correspondence", Detail: fmt.Sprintf("query %s: results differ: model %s impl %s", qd, canonStr(get(model, "ok", "tags")), canonStr(get(r, "tags"))), Signature: "ops:parametersFor:res"})
